@@ -1336,6 +1336,11 @@ func (s *Store) restoreDBFromBackup(ctx context.Context, name string) (newPos lt
 	}
 	newPos = db.Pos()
 
+	// The restored position is all the backup service is known to hold. A
+	// high-water mark left over from the history that was just discarded
+	// would let retention remove files that have never been uploaded.
+	db.SetHWM(newPos.TXID)
+
 	slog.Warn("database restore complete",
 		slog.String("name", name),
 		slog.String("pos", newPos.String()),
